@@ -84,7 +84,7 @@ def assoc_events(ctx):
     unassigned tag) followed by signatures: which signatures does PGPy hold on which component, in memory and after export."""
     pgpy = import_pgpy()
     ev = []
-    for variant in ('plain', 'v5-subkey-between', 'unknown-tag-after-uid', 'v5-subkey-last', 'v5-subkey-first', 'trust-and-v5', 'two-unknown', 'five-octet-subpacket-lengths', 'latin1-uid', 'local-signatures'):
+    for variant in ('plain', 'v5-subkey-between', 'unknown-tag-after-uid', 'v5-subkey-last', 'v5-subkey-first', 'trust-and-v5', 'two-unknown', 'five-octet-subpacket-lengths', 'latin1-uid', 'local-signatures', 'certification-by-unsupported-algorithm'):
         for secret in (False, True):
             fk = build.ForeignKey('ed25519')
             s1 = enc.Recipient('cv25519', created=fk.created + 1)
@@ -130,6 +130,13 @@ def assoc_events(ctx):
                 e_key, _ = build.sig_packet(tp, 0x1F, 'sha256', [], [], build.subject_octets(0x1F, primary=fk.pub_body), created=fk.created + 63)
                 ins[uididx[0]] = l_key + e_key          # directly after the primary key packet
                 ins[uididx[1]] = l_uid + e_uid          # after the signatures of the first identity
+            if variant == 'certification-by-unsupported-algorithm':
+                # a third-party certification made with a public-key algorithm PGPy has no signature class for (id 20, formerly ElGamal
+                # encrypt-or-sign): it cannot be verified here, but it belongs to the key and must be kept as it is
+                hs = build.subpacket(2, struct.pack('>I', fk.created + 70))
+                ob = bytes([4, 0x10, 20, 8]) + struct.pack('>H', len(hs)) + hs + struct.pack('>H', 10) + build.subpacket(16, bytes(range(8))) + b'\xab\xcd' + \
+                    build.mpi(2 ** 255 + 12345) + build.mpi(2 ** 254 + 999)
+                ins[uididx[1]] = build.pkt(2, ob)
             blob = b''.join(ins.get(j, b'') + r for j, r in enumerate(raws)) + ins.get(len(raws), b'')
             e = {'k': 'assoc', 'label': '%s %s' % (variant, 'secret' if secret else 'public'), 'blob': octets(blob), 'got': [], 'reexport': [], 'copy_export': [], 'pub_export': []}
             with warnings.catch_warnings():
